@@ -1,0 +1,46 @@
+//go:build verif
+
+package lamport
+
+// Contracts for the Lamport clocks (property C05).
+// Comment-only file: it is compiled only with -tags verif and contains no code.
+
+//@ func NewMemClock
+//@   props C05
+//@   nopanic
+//@   modifies nothing
+//@   ensures result != nil && fresh(result) && result.counter == 1
+
+//@ func NewMemClockWithTime
+//@   props C05
+//@   nopanic
+//@   modifies nothing
+//@   ensures result != nil && fresh(result) && result.counter == time
+
+//@ func (*MemClock).Time
+//@   props C05
+//@   requires mc != nil
+//@   nopanic
+//@   modifies nothing
+//@   ensures result == mc.counter
+
+//@ func (*MemClock).Increment
+//@   props C05
+//@   requires mc != nil
+//@   nopanic
+//@   modifies mc.counter
+//@   ensures [returns-new-value] err == nil ==> result == mc.counter
+//@   ensures [strictly-greater]  err == nil ==> result > old(mc.counter)
+//@   ensures [plus-one]          err == nil ==> mc.counter == old(mc.counter) + 1
+//@   ensures [monotone]          mc.counter >= old(mc.counter)
+
+//@ func (*MemClock).Witness
+//@   props C05
+//@   requires mc != nil
+//@   nopanic
+//@   modifies mc.counter
+//@   ensures [max]      mc.counter == max(old(mc.counter), v)
+//@   ensures [monotone] mc.counter >= old(mc.counter)
+//@   ensures [no-error] result == nil
+//@   loop 1
+//@     invariant mc.counter == old(mc.counter)
